@@ -4,6 +4,7 @@
   value by value (`stream_fidelity`).
 -/
 import Jawk.Lemmas.RoundTrip
+import Jawk.Lemmas.FloatBridge
 import Jawk.Spec.Json
 namespace Jawk.Ser
 open Jawk Reader Jawk.RT
@@ -542,4 +543,556 @@ theorem vspec_num {t : NumText} {n : Num} (ht : t.WF) (hv : t.value? = some n) :
   · rw [hw]; exact finishNumber_value t ht.1.1.1 n hv r2
   · rfl
 
+
+/-! ### First bytes -/
+
+theorem headOK_of_num {c : Byte} (h : c = 45 ∨ isDigit c = true) : HeadOK c := by
+  refine ⟨isWs_false_of_num c h, ?_, ?_⟩
+  · rcases h with rfl | h
+    · decide
+    · intro e; subst e; simp [isDigit] at h
+  · rcases h with rfl | h
+    · decide
+    · intro e; subst e; simp [isDigit] at h
+
+/-- a JSON text starts with a byte that is neither white space nor a closing bracket -/
+theorem ser_head {v : JV} {bs : List Byte} (h : Ser v bs) : ∃ c tl, bs = c :: tl ∧ HeadOK c := by
+  cases h with
+  | null => exact ⟨110, _, rfl, by decide⟩
+  | true => exact ⟨116, _, rfl, by decide⟩
+  | false => exact ⟨102, _, rfl, by decide⟩
+  | str _ => exact ⟨34, _, rfl, by decide⟩
+  | num ht _ =>
+    obtain ⟨c, tl, h1, h2⟩ := bytes_head _ ht
+    exact ⟨c, tl, h1, headOK_of_num h2⟩
+  | arrEmpty _ => exact ⟨91, _, rfl, by decide⟩
+  | arr _ _ => exact ⟨91, _, rfl, by decide⟩
+  | objEmpty _ => exact ⟨123, _, rfl, by decide⟩
+  | obj _ _ _ => exact ⟨123, _, rfl, by decide⟩
+
+theorem ser_str_head {k : Str} {kb : List Byte} (h : Ser (.str k) kb) : ∃ tl, kb = 34 :: tl := by
+  cases h with
+  | str _ => exact ⟨_, rfl⟩
+
+theorem elems_head {vs : List JV} {body : List Byte} (h : Elems vs body) :
+    ∃ c tl, body = c :: tl ∧ HeadOK c := by
+  cases h with
+  | one hv _ =>
+    obtain ⟨c, tl, rfl, hc⟩ := ser_head hv
+    exact ⟨c, _, rfl, hc⟩
+  | cons hv _ _ _ =>
+    obtain ⟨c, tl, rfl, hc⟩ := ser_head hv
+    exact ⟨c, _, rfl, hc⟩
+
+theorem members_head {kvs : List (Str × JV)} {body : List Byte} (h : Members kvs body) :
+    ∃ tl, body = 34 :: tl := by
+  cases h with
+  | one hk _ _ _ _ =>
+    obtain ⟨tl, rfl⟩ := ser_str_head hk
+    exact ⟨_, rfl⟩
+  | cons hk _ _ _ _ _ _ =>
+    obtain ⟨tl, rfl⟩ := ser_str_head hk
+    exact ⟨_, rfl⟩
+
+/-! ### Arrays -/
+
+/-- `readArrayLoop` reads the elements `vs` from `body` (white space `ws0` pending), up to and including
+the closing bracket -/
+def ESpec (vs : List JV) (body : List Byte) : Prop :=
+  ∀ (ws0 : List Byte), (∀ b ∈ ws0, isWs b = true) → ∀ (rest : List Byte) (acc : List JV) (r : Reader),
+    Ready r (ws0 ++ (body ++ 93 :: rest)) →
+    ∀ (fuel : Nat), 2 * (ws0.length + body.length) + 3 ≤ fuel →
+    ∃ r', readArrayLoop fuel acc r = (.ok (.arr (acc ++ vs)), r') ∧ Ready r' rest
+
+theorem espec_one {v : JV} {bs w : List Byte} (hv : VSpec v bs) (hw : Ws w) : ESpec [v] (bs ++ w) := by
+  intro ws0 hws0 rest acc r hr fuel hf
+  obtain ⟨fuel, rfl⟩ : ∃ k, fuel = k + 1 := ⟨fuel - 1, by omega⟩
+  have hw' := ws_of_Ws hw
+  simp only [List.append_assoc, List.length_append] at hr hf
+  obtain ⟨r1, h1, hr1⟩ := hv ws0 hws0 (w ++ 93 :: rest)
+    (Delim.of_numDelim (numDelim_ws_punct w hw' 93 rest punct_numDelim_93)) r hr fuel (by omega)
+  obtain ⟨r2, h2, hr2⟩ := eatWhitespace_ready w hw' (93 :: rest)
+    (by intro b hb; simp at hb; subst hb; rfl) r1 hr1 (fuel + 1) (by omega)
+  obtain ⟨x, r3, h3, hr3⟩ := next_at_ready (show At r2 93 rest from hr2)
+  refine ⟨r3, ?_, hr3⟩
+  rw [readArrayLoop, PM.bind_ok h1]
+  simp only []
+  rw [PM.bind_ok h2, PM.bind_ok (peek_at hr2)]
+  simp only [if_true]
+  rw [PM.bind_ok h3]
+  rfl
+
+theorem espec_cons {v : JV} {bs w1 w2 : List Byte} {vs : List JV} {tl : List Byte}
+    (hv : VSpec v bs) (hw1 : Ws w1) (hw2 : Ws w2) (ih : ESpec vs tl) :
+    ESpec (v :: vs) (bs ++ (w1 ++ 44 :: (w2 ++ tl))) := by
+  intro ws0 hws0 rest acc r hr fuel hf
+  obtain ⟨fuel, rfl⟩ : ∃ k, fuel = k + 1 := ⟨fuel - 1, by omega⟩
+  have hw1' := ws_of_Ws hw1
+  have hw2' := ws_of_Ws hw2
+  simp only [List.append_assoc, List.cons_append, List.length_append, List.length_cons] at hr hf
+  obtain ⟨r1, h1, hr1⟩ := hv ws0 hws0 (w1 ++ 44 :: (w2 ++ (tl ++ 93 :: rest)))
+    (Delim.of_numDelim (numDelim_ws_punct w1 hw1' 44 _ punct_numDelim_44)) r hr fuel (by omega)
+  obtain ⟨r2, h2, hr2⟩ := eatWhitespace_ready w1 hw1' (44 :: (w2 ++ (tl ++ 93 :: rest)))
+    (by intro b hb; simp at hb; subst hb; rfl) r1 hr1 (fuel + 1) (by omega)
+  obtain ⟨r3, h3, hr3⟩ := next_at (show At r2 44 _ from hr2)
+  obtain ⟨r4, h4, hr4⟩ := ih w2 hw2' rest (acc ++ [v]) r3 hr3.ready fuel (by omega)
+  refine ⟨r4, ?_, hr4⟩
+  rw [readArrayLoop, PM.bind_ok h1]
+  simp only []
+  rw [PM.bind_ok h2, PM.bind_ok (peek_at hr2)]
+  simp only [show ¬ ((44 : Byte) = 93) by decide, if_false, if_true]
+  rw [PM.bind_ok h3, h4]
+  simp
+
+theorem vspec_arrEmpty {w : List Byte} (hw : Ws w) : VSpec (.arr []) (91 :: (w ++ [93])) := by
+  intro ws hws rest _ r hr fuel hf
+  obtain ⟨fuel, rfl⟩ : ∃ k, fuel = k + 1 := ⟨fuel - 1, by omega⟩
+  simp only [List.length_cons, List.length_append, List.length_nil] at hf
+  obtain ⟨fuel, rfl⟩ : ∃ k, fuel = k + 1 := ⟨fuel - 1, by omega⟩
+  obtain ⟨r1, hr1, hnv⟩ := nextValue_dispatch ws hws 91 (w ++ 93 :: rest) rfl r (by simpa using hr)
+    (fuel + 1) (by omega)
+  obtain ⟨r2, h2, hr2⟩ := next_at hr1
+  obtain ⟨r3, h3, hr3⟩ := eatWhitespace_ready w (ws_of_Ws hw) (93 :: rest)
+    (by intro b hb; simp at hb; subst hb; rfl) r2 hr2.ready (fuel + 1) (by omega)
+  obtain ⟨x, r4, h4, hr4⟩ := next_at_ready (show At r3 93 rest from hr3)
+  refine ⟨r4, ?_, hr4⟩
+  rw [hnv, dispatch_arr, readArray, PM.bind_ok]
+  rotate_left
+  · rw [PM.bind_ok h2, PM.bind_ok h3, PM.bind_ok (peek_at hr3)]
+    simp only [if_true]
+    rw [PM.bind_ok h4]
+    rfl
+  · rfl
+
+theorem vspec_arr {w : List Byte} {vs : List JV} {body : List Byte} (hw : Ws w) (he : Elems vs body)
+    (ih : ESpec vs body) : VSpec (.arr vs) (91 :: (w ++ (body ++ [93]))) := by
+  intro ws hws rest _ r hr fuel hf
+  obtain ⟨fuel, rfl⟩ : ∃ k, fuel = k + 1 := ⟨fuel - 1, by omega⟩
+  simp only [List.length_cons, List.length_append, List.length_nil] at hf
+  obtain ⟨fuel, rfl⟩ : ∃ k, fuel = k + 1 := ⟨fuel - 1, by omega⟩
+  obtain ⟨r1, hr1, hnv⟩ := nextValue_dispatch ws hws 91 (w ++ (body ++ 93 :: rest)) rfl r
+    (by simpa using hr) (fuel + 1) (by omega)
+  obtain ⟨r2, h2, hr2⟩ := next_at hr1
+  obtain ⟨c, tl, hc1, hc2⟩ := elems_head he
+  obtain ⟨r3, h3, hr3⟩ := eatWhitespace_ready w (ws_of_Ws hw) (c :: (tl ++ 93 :: rest))
+    (by intro b hb; simp at hb; subst hb; exact hc2.1) r2
+    (by have := hr2.ready; rw [hc1] at this; simpa using this) (fuel + 1) (by omega)
+  obtain ⟨r4, h4, hr4⟩ := ih [] (by simp) rest [] r3 (by rw [hc1]; simpa using hr3.ready) fuel
+    (by simp; omega)
+  refine ⟨r4, ?_, hr4⟩
+  rw [hnv, dispatch_arr, readArray, PM.bind_ok]
+  rotate_left
+  · rw [PM.bind_ok h2, PM.bind_ok h3, PM.bind_ok (peek_at hr3)]
+    simp only [Option.some.injEq, hc2.2.1, if_false]
+    exact h4
+  · simp
+
+
+/-! ### Objects -/
+
+theorem punct_numDelim_58 : isDigit 58 = false ∧ (58 : Byte) ≠ 46 ∧ (58 : Byte) ≠ 101 ∧ (58 : Byte) ≠ 69 := by
+  decide
+
+/-- `readObjectLoop` reads the members `kvs` from `body` (white space `ws0` pending), up to and including
+the closing brace, inserting them into `acc` -/
+def MSpec (kvs : List (Str × JV)) (body : List Byte) : Prop :=
+  ∀ (ws0 : List Byte), (∀ b ∈ ws0, isWs b = true) → ∀ (rest : List Byte) (acc : List (Str × JV))
+    (r : Reader), Ready r (ws0 ++ (body ++ 125 :: rest)) →
+    ∀ (fuel : Nat), 2 * (ws0.length + body.length) + 3 ≤ fuel →
+    ∃ r', readObjectLoop fuel acc r = (.ok (.obj (insertAll acc kvs)), r') ∧ Ready r' rest
+
+theorem mspec_one {k : Str} {kb w1 w2 : List Byte} {v : JV} {bs w3 : List Byte}
+    (hk : VSpec (.str k) kb) (hw1 : Ws w1) (hw2 : Ws w2) (hv : VSpec v bs) (hw3 : Ws w3) :
+    MSpec [(k, v)] (kb ++ (w1 ++ 58 :: (w2 ++ (bs ++ w3)))) := by
+  intro ws0 hws0 rest acc r hr fuel hf
+  obtain ⟨fuel, rfl⟩ : ∃ k, fuel = k + 1 := ⟨fuel - 1, by omega⟩
+  have hw1' := ws_of_Ws hw1
+  have hw2' := ws_of_Ws hw2
+  have hw3' := ws_of_Ws hw3
+  simp only [List.append_assoc, List.cons_append, List.length_append, List.length_cons] at hr hf
+  obtain ⟨r1, h1, hr1⟩ := hk ws0 hws0 (w1 ++ 58 :: (w2 ++ (bs ++ (w3 ++ 125 :: rest)))) True.intro r hr
+    fuel (by omega)
+  obtain ⟨r2, h2, hr2⟩ := eatWhitespace_ready w1 hw1' (58 :: (w2 ++ (bs ++ (w3 ++ 125 :: rest))))
+    (by intro b hb; simp at hb; subst hb; rfl) r1 hr1 (fuel + 1) (by omega)
+  obtain ⟨r3, h3, hr3⟩ := next_at (show At r2 58 _ from hr2)
+  obtain ⟨r4, h4, hr4⟩ := hv w2 hw2' (w3 ++ 125 :: rest)
+    (Delim.of_numDelim (numDelim_ws_punct w3 hw3' 125 rest punct_numDelim_125)) r3 hr3.ready
+    fuel (by omega)
+  obtain ⟨r5, h5, hr5⟩ := eatWhitespace_ready w3 hw3' (125 :: rest)
+    (by intro b hb; simp at hb; subst hb; rfl) r4 hr4 (fuel + 1) (by omega)
+  obtain ⟨x, r6, h6, hr6⟩ := next_at_ready (show At r5 125 rest from hr5)
+  refine ⟨r6, ?_, hr6⟩
+  rw [readObjectLoop, PM.bind_ok h1]
+  simp only []
+  rw [PM.bind_ok h2, PM.bind_ok (peek_at hr2)]
+  simp only [ne_eq, not_true_eq_false, if_false]
+  rw [PM.bind_ok h3, PM.bind_ok h4]
+  simp only []
+  rw [PM.bind_ok h5, PM.bind_ok (peek_at hr5)]
+  simp only [if_true]
+  rw [PM.bind_ok h6]
+  simp [insertAll]
+
+theorem mspec_cons {k : Str} {kb w1 w2 : List Byte} {v : JV} {bs w3 w4 : List Byte}
+    {kvs : List (Str × JV)} {tl : List Byte}
+    (hk : VSpec (.str k) kb) (hw1 : Ws w1) (hw2 : Ws w2) (hv : VSpec v bs) (hw3 : Ws w3) (hw4 : Ws w4)
+    (ih : MSpec kvs tl) :
+    MSpec ((k, v) :: kvs) (kb ++ (w1 ++ 58 :: (w2 ++ (bs ++ (w3 ++ 44 :: (w4 ++ tl)))))) := by
+  intro ws0 hws0 rest acc r hr fuel hf
+  obtain ⟨fuel, rfl⟩ : ∃ k, fuel = k + 1 := ⟨fuel - 1, by omega⟩
+  have hw1' := ws_of_Ws hw1
+  have hw2' := ws_of_Ws hw2
+  have hw3' := ws_of_Ws hw3
+  have hw4' := ws_of_Ws hw4
+  simp only [List.append_assoc, List.cons_append, List.length_append, List.length_cons] at hr hf
+  obtain ⟨r1, h1, hr1⟩ := hk ws0 hws0
+    (w1 ++ 58 :: (w2 ++ (bs ++ (w3 ++ 44 :: (w4 ++ (tl ++ 125 :: rest)))))) True.intro r hr
+    fuel (by omega)
+  obtain ⟨r2, h2, hr2⟩ := eatWhitespace_ready w1 hw1'
+    (58 :: (w2 ++ (bs ++ (w3 ++ 44 :: (w4 ++ (tl ++ 125 :: rest))))))
+    (by intro b hb; simp at hb; subst hb; rfl) r1 hr1 (fuel + 1) (by omega)
+  obtain ⟨r3, h3, hr3⟩ := next_at (show At r2 58 _ from hr2)
+  obtain ⟨r4, h4, hr4⟩ := hv w2 hw2' (w3 ++ 44 :: (w4 ++ (tl ++ 125 :: rest)))
+    (Delim.of_numDelim (numDelim_ws_punct w3 hw3' 44 _ punct_numDelim_44)) r3 hr3.ready
+    fuel (by omega)
+  obtain ⟨r5, h5, hr5⟩ := eatWhitespace_ready w3 hw3' (44 :: (w4 ++ (tl ++ 125 :: rest)))
+    (by intro b hb; simp at hb; subst hb; rfl) r4 hr4 (fuel + 1) (by omega)
+  obtain ⟨r6, h6, hr6⟩ := next_at (show At r5 44 _ from hr5)
+  obtain ⟨r7, h7, hr7⟩ := ih w4 hw4' rest (objInsert acc k v) r6 hr6.ready fuel (by omega)
+  refine ⟨r7, ?_, hr7⟩
+  rw [readObjectLoop, PM.bind_ok h1]
+  simp only []
+  rw [PM.bind_ok h2, PM.bind_ok (peek_at hr2)]
+  simp only [ne_eq, not_true_eq_false, if_false]
+  rw [PM.bind_ok h3, PM.bind_ok h4]
+  simp only []
+  rw [PM.bind_ok h5, PM.bind_ok (peek_at hr5)]
+  simp only [show ¬ ((44 : Byte) = 125) by decide, if_false, if_true]
+  rw [PM.bind_ok h6, h7]
+  simp [insertAll]
+
+theorem vspec_objEmpty {w : List Byte} (hw : Ws w) : VSpec (.obj []) (123 :: (w ++ [125])) := by
+  intro ws hws rest _ r hr fuel hf
+  obtain ⟨fuel, rfl⟩ : ∃ k, fuel = k + 1 := ⟨fuel - 1, by omega⟩
+  simp only [List.length_cons, List.length_append, List.length_nil] at hf
+  obtain ⟨fuel, rfl⟩ : ∃ k, fuel = k + 1 := ⟨fuel - 1, by omega⟩
+  obtain ⟨r1, hr1, hnv⟩ := nextValue_dispatch ws hws 123 (w ++ 125 :: rest) rfl r (by simpa using hr)
+    (fuel + 1) (by omega)
+  obtain ⟨r2, h2, hr2⟩ := next_at hr1
+  obtain ⟨r3, h3, hr3⟩ := eatWhitespace_ready w (ws_of_Ws hw) (125 :: rest)
+    (by intro b hb; simp at hb; subst hb; rfl) r2 hr2.ready (fuel + 1) (by omega)
+  obtain ⟨x, r4, h4, hr4⟩ := next_at_ready (show At r3 125 rest from hr3)
+  refine ⟨r4, ?_, hr4⟩
+  rw [hnv, dispatch_obj, readObject, PM.bind_ok]
+  rotate_left
+  · rw [PM.bind_ok h2, PM.bind_ok h3, PM.bind_ok (peek_at hr3)]
+    simp only [if_true]
+    rw [PM.bind_ok h4]
+    rfl
+  · rfl
+
+theorem vspec_obj {w : List Byte} {kvs : List (Str × JV)} {body : List Byte} (hw : Ws w)
+    (hm : Members kvs body) (hnd : (kvs.map (·.1)).Nodup) (ih : MSpec kvs body) :
+    VSpec (.obj kvs) (123 :: (w ++ (body ++ [125]))) := by
+  intro ws hws rest _ r hr fuel hf
+  obtain ⟨fuel, rfl⟩ : ∃ k, fuel = k + 1 := ⟨fuel - 1, by omega⟩
+  simp only [List.length_cons, List.length_append, List.length_nil] at hf
+  obtain ⟨fuel, rfl⟩ : ∃ k, fuel = k + 1 := ⟨fuel - 1, by omega⟩
+  obtain ⟨r1, hr1, hnv⟩ := nextValue_dispatch ws hws 123 (w ++ (body ++ 125 :: rest)) rfl r
+    (by simpa using hr) (fuel + 1) (by omega)
+  obtain ⟨r2, h2, hr2⟩ := next_at hr1
+  obtain ⟨tl, hc1⟩ := members_head hm
+  obtain ⟨r3, h3, hr3⟩ := eatWhitespace_ready w (ws_of_Ws hw) (34 :: (tl ++ 125 :: rest))
+    (by intro b hb; simp at hb; subst hb; rfl) r2
+    (by have := hr2.ready; rw [hc1] at this; simpa using this) (fuel + 1) (by omega)
+  obtain ⟨r4, h4, hr4⟩ := ih [] (by simp) rest [] r3 (by rw [hc1]; simpa using hr3.ready) fuel
+    (by simp; omega)
+  refine ⟨r4, ?_, hr4⟩
+  have hins : insertAll [] kvs = kvs := by
+    rw [insertAll_nodup [] _ (by simpa using hnd)]; simp
+  rw [hins] at h4
+  rw [hnv, dispatch_obj, readObject, PM.bind_ok]
+  rotate_left
+  · rw [PM.bind_ok h2, PM.bind_ok h3, PM.bind_ok (peek_at hr3)]
+    simp only [Option.some.injEq, show ¬ ((34 : Byte) = 125) by decide, if_false]
+    exact h4
+  · simp
+
+/-! ### The induction on the derivation -/
+
+mutual
+theorem vspec_of_ser : ∀ {v : JV} {bs : List Byte}, Ser v bs → VSpec v bs
+  | _, _, .null => vspec_null
+  | _, _, .true => vspec_true
+  | _, _, .false => vspec_false
+  | _, _, .str h => vspec_str h
+  | _, _, .num ht hv => vspec_num ht hv
+  | _, _, .arrEmpty hw => vspec_arrEmpty hw
+  | _, _, .arr hw he => vspec_arr hw he (espec_of_elems he)
+  | _, _, .objEmpty hw => vspec_objEmpty hw
+  | _, _, .obj hw hm hnd => vspec_obj hw hm hnd (mspec_of_members hm)
+theorem espec_of_elems : ∀ {vs : List JV} {body : List Byte}, Elems vs body → ESpec vs body
+  | _, _, .one hv hw => espec_one (vspec_of_ser hv) hw
+  | _, _, .cons hv hw1 hw2 he => espec_cons (vspec_of_ser hv) hw1 hw2 (espec_of_elems he)
+theorem mspec_of_members : ∀ {kvs : List (Str × JV)} {body : List Byte}, Members kvs body → MSpec kvs body
+  | _, _, .one hk hw1 hw2 hv hw3 => mspec_one (vspec_of_ser hk) hw1 hw2 (vspec_of_ser hv) hw3
+  | _, _, .cons hk hw1 hw2 hv hw3 hw4 hm =>
+    mspec_cons (vspec_of_ser hk) hw1 hw2 (vspec_of_ser hv) hw3 hw4 (mspec_of_members hm)
+end
+
+/-- the fuel that suffices to read the text `bs` after the white space `ws` -/
+def fuelFor (ws bs : List Byte) : Nat := 2 * (ws ++ bs).length + 2
+
+/-- **C01.** Every conforming serialisation of a JSON value is read as that value: positioned before any
+white space `ws`, the text `bs` with `Ser v bs`, and any `rest` that does not extend a number text,
+`next_json_value` returns exactly `v` and leaves the reader before `rest`. -/
+theorem parse_ser {v : JV} {bs : List Byte} (h : Ser v bs) (rest : List Byte) (hd : Delimited v rest)
+    (ws : List Byte) (hws : Ws ws) (r : Reader) (hr : Ready r (ws ++ bs ++ rest))
+    (fuel : Nat) (hf : fuelFor ws bs ≤ fuel) :
+    ∃ r', nextValue fuel r = (.ok (some v), r') ∧ Ready r' rest :=
+  vspec_of_ser h ws (ws_of_Ws hws) rest (delim_of_delimited hd) r (by simpa using hr) fuel
+    (by simpa [fuelFor] using hf)
+
+/-- one `Reader.nextJson` call (with the fuel `nextJson` itself uses) reads one conforming text -/
+theorem nextJson_ser {v : JV} {bs : List Byte} (h : Ser v bs) (rest : List Byte) (hd : Delimited v rest)
+    (ws : List Byte) (hws : Ws ws) (r : Reader) (hr : Ready r (ws ++ bs ++ rest)) :
+    ∃ r', r.nextJson = (.ok (some v), r') ∧ Ready r' rest := by
+  have hl := ready_length hr
+  simp only [List.length_append] at hl
+  exact parse_ser h rest hd ws hws r hr _ (by simp only [fuelFor, List.length_append]; omega)
+
+
+/-! ### Streams of values -/
+
+/-- the bytes of a stream: each item is a value, its text, and the white space after it -/
+def streamText : List (JV × List Byte × List Byte) → List Byte
+  | [] => []
+  | (_, bs, sep) :: items => bs ++ (sep ++ streamText items)
+
+/-- every item is a conforming text of its value followed by white space, and no number text is extended by
+what follows it -/
+def StreamOK : List (JV × List Byte × List Byte) → Prop
+  | [] => True
+  | (v, bs, sep) :: items => Ser v bs ∧ Ws sep ∧ Delimited v (sep ++ streamText items) ∧ StreamOK items
+
+/-- the usual sufficient condition: consecutive values are separated by non-empty white space
+(nothing is required after the last value, nor after a value that is not a number) -/
+def SepOK : List (JV × List Byte × List Byte) → Prop
+  | [] => True
+  | (v, bs, sep) :: items =>
+    Ser v bs ∧ Ws sep ∧ (sep ≠ [] ∨ items = [] ∨ ∀ n, v ≠ .num n) ∧ SepOK items
+
+theorem StreamOK.of_sepOK : ∀ {items : List (JV × List Byte × List Byte)}, SepOK items → StreamOK items
+  | [], _ => True.intro
+  | (v, bs, sep) :: items, ⟨h1, h2, h3, h4⟩ => by
+    refine ⟨h1, h2, ?_, StreamOK.of_sepOK h4⟩
+    rcases h3 with h3 | h3 | h3
+    · apply delimited_of_delim
+      apply Delim.of_numDelim
+      obtain ⟨s, sep', rfl⟩ := List.exists_cons_of_ne_nil h3
+      exact numDelim_cons s _ (isWs_numDelim (isWs_of_IsWs (h2 s (by simp))))
+    · subst h3
+      cases sep with
+      | nil => exact delimited_of_delim (Delim.of_numDelim numDelim_nil)
+      | cons s sep' =>
+        exact delimited_of_delim (Delim.of_numDelim
+          (numDelim_cons s _ (isWs_numDelim (isWs_of_IsWs (h2 s (by simp))))))
+    · cases v with
+      | num n => exact absurd rfl (h3 n)
+      | _ => exact True.intro
+
+theorem stream_fidelity_aux (items : List (JV × List Byte × List Byte)) (h : StreamOK items)
+    (lead : List Byte) (hlead : Ws lead) (r : Reader) (hr : Ready r (lead ++ streamText items)) :
+    ∃ r' r'', Reads r (items.map (·.1)) r' ∧ r'.nextJson = (.ok none, r'') ∧ Ready r'' [] := by
+  induction items generalizing lead r with
+  | nil =>
+    obtain ⟨r'', h1, h2⟩ := nextJson_end lead (ws_of_Ws hlead) r (by simpa [streamText] using hr)
+    exact ⟨r, r'', Reads.nil r, h1, h2⟩
+  | cons it items ih =>
+    obtain ⟨v, bs, sep⟩ := it
+    obtain ⟨h1, h2, h3, h4⟩ := h
+    obtain ⟨r1, e1, hr1⟩ := nextJson_ser h1 (sep ++ streamText items) h3 lead hlead r
+      (by simpa [streamText] using hr)
+    obtain ⟨r', r'', e2, e3, e4⟩ := ih h4 sep h2 r1 hr1
+    exact ⟨r', r'', Reads.cons e1 e2, e3, e4⟩
+
+/-- **stream_fidelity.** A stream of conforming JSON texts `bs₁ sep₁ bs₂ sep₂ … bsₙ sepₙ` (after optional
+leading white space), where no number text is extended by what follows it: successive
+`Reader.nextJson` calls return exactly `v₁, …, vₙ` in order, without any error in between, and then
+`none` (end of input). -/
+theorem stream_fidelity (lead : List Byte) (hlead : Ws lead) (items : List (JV × List Byte × List Byte))
+    (h : StreamOK items) (name : Option Str) :
+    ∃ r' r'', Reads (Reader.ofBytes (lead ++ streamText items) name) (items.map (·.1)) r' ∧
+      r'.nextJson = (.ok none, r'') :=
+  let ⟨r', r'', h1, h2, _⟩ := stream_fidelity_aux items h lead hlead _ (ready_ofBytes _ name)
+  ⟨r', r'', h1, h2⟩
+
+/-- the same for values separated by non-empty white space -/
+theorem stream_fidelity_ws (lead : List Byte) (hlead : Ws lead) (items : List (JV × List Byte × List Byte))
+    (h : SepOK items) (name : Option Str) :
+    ∃ r' r'', Reads (Reader.ofBytes (lead ++ streamText items) name) (items.map (·.1)) r' ∧
+      r'.nextJson = (.ok none, r'') :=
+  stream_fidelity lead hlead items (StreamOK.of_sepOK h) name
+
+
+/-! ### Closing the loop: what was read from a conforming text can be printed and read back (C02) -/
+
+/-- the value of a number text is one of the numbers described by `ParsedNum`; if it is a float, that float
+is in canonical form -/
+theorem value_parsed {t : NumText} {n : Num} (hv : t.value? = some n) :
+    ParsedNum n ∧ ∀ f, n = .flt f → f.Canonical := by
+  unfold NumText.value? at hv
+  simp only [] at hv
+  by_cases hC : t.frac.isNone ∧ t.exp.isNone ∧
+      (if t.neg then F64.digitsToNat (asciiStr t.int) ≤ 2 ^ 63 else F64.digitsToNat (asciiStr t.int) < 2 ^ 64)
+  · rw [if_pos hC] at hv
+    simp only [Option.some.injEq] at hv
+    subst hv
+    have h3 := hC.2.2
+    cases hneg : t.neg with
+    | true =>
+      simp only [hneg, if_true] at h3 ⊢
+      exact ⟨⟨by omega, by omega⟩, by intro f hf; cases hf⟩
+    | false =>
+      simp only [hneg, Bool.false_eq_true, if_false] at h3 ⊢
+      exact ⟨h3, by intro f hf; cases hf⟩
+  · rw [if_neg hC] at hv
+    cases hp : F64.parseDecimal (asciiStr t.norm) with
+    | none => simp [hp] at hv
+    | some f' =>
+      simp only [hp] at hv
+      by_cases hfin : f'.isFinite = true
+      · simp only [hfin, if_true, Option.some.injEq] at hv
+        subst hv
+        refine ⟨parsedNum_ofF64 f' hfin, ?_⟩
+        intro f hf
+        rw [ofF64_flt_inv hf]
+        exact parseDecimal_canonical hp
+      · simp [hfin] at hv
+
+/-- `H17`, the classical fact that 17 significant digits always suffice: the digit search of
+`Display for f64` succeeds on every finite double in canonical form -/
+def H17 : Prop := ∀ f : F64, f.Canonical → f.isFinite = true → (F64.toDisplay? f).isSome = true
+
+theorem strOK_utf8 (o : JsonOpts) (ho : o.utf8Strings = true) (s : Str) : StrOK o s :=
+  fun _ _ => Or.inr ho
+
+mutual
+/-- every value of a conforming text is a value of the kind described by `Parsed` (with `utf8Strings`,
+so that characters outside the BMP are printed raw) -/
+theorem parsed_of_ser (h17 : H17) (o : JsonOpts) (ho : o.utf8Strings = true) :
+    ∀ {v : JV} {bs : List Byte}, Ser v bs → Parsed o v
+  | _, _, .null => by rw [Parsed]; exact True.intro
+  | _, _, .true => by rw [Parsed]; exact True.intro
+  | _, _, .false => by rw [Parsed]; exact True.intro
+  | _, _, .str _ => by rw [Parsed]; exact strOK_utf8 o ho _
+  | _, _, .num _ hv => by
+    rw [Parsed]
+    obtain ⟨h1, h2⟩ := value_parsed hv
+    refine ⟨h1, ?_⟩
+    intro f hf
+    subst hf
+    exact h17 f (h2 f rfl) h1.1
+  | _, _, .arrEmpty _ => by rw [Parsed, ParsedList]; exact True.intro
+  | _, _, .arr _ he => by rw [Parsed]; exact parsedList_of_elems h17 o ho he
+  | _, _, .objEmpty _ => by rw [Parsed, ParsedMembers]; exact ⟨True.intro, List.nodup_nil⟩
+  | _, _, .obj _ hm hnd => by rw [Parsed]; exact ⟨parsedMembers_of_members h17 o ho hm, hnd⟩
+theorem parsedList_of_elems (h17 : H17) (o : JsonOpts) (ho : o.utf8Strings = true) :
+    ∀ {vs : List JV} {body : List Byte}, Elems vs body → ParsedList o vs
+  | _, _, .one hv _ => by
+    rw [ParsedList, ParsedList]; exact ⟨parsed_of_ser h17 o ho hv, True.intro⟩
+  | _, _, .cons hv _ _ he => by
+    rw [ParsedList]; exact ⟨parsed_of_ser h17 o ho hv, parsedList_of_elems h17 o ho he⟩
+theorem parsedMembers_of_members (h17 : H17) (o : JsonOpts) (ho : o.utf8Strings = true) :
+    ∀ {kvs : List (Str × JV)} {body : List Byte}, Members kvs body → ParsedMembers o kvs
+  | _, _, .one _ _ _ hv _ => by
+    rw [ParsedMembers, ParsedMembers]
+    exact ⟨strOK_utf8 o ho _, parsed_of_ser h17 o ho hv, True.intro⟩
+  | _, _, .cons _ _ _ hv _ _ hm => by
+    rw [ParsedMembers]
+    exact ⟨strOK_utf8 o ho _, parsed_of_ser h17 o ho hv, parsedMembers_of_members h17 o ho hm⟩
+end
+
+/-- **C01 + C02.** What jawk reads from a conforming text, it can print (any style, `utf8Strings`) and read
+back: the printed text of `v` is read as `norm v` (`v` itself, except that `-0` is printed `0`).  The only
+assumption is `H17`. -/
+theorem print_parse_of_ser (h17 : H17) (o : JsonOpts) (ho : o.utf8Strings = true) {v : JV} {bs : List Byte}
+    (h : Ser v bs) (rest : List Byte) (hd : Delim v rest) (r : Reader)
+    (hr : Ready r (utf8 (printJson o v) ++ rest)) (fuel : Nat) (hf : fuelBound o v ≤ fuel) :
+    ∃ r', nextValue fuel r = (.ok (some (norm v)), r') ∧ Ready r' rest :=
+  parse_print_parsed o v (parsed_of_ser h17 o ho h) rest hd r hr fuel hf
+
+/-! ### Non-vacuity: a concrete text with an exponent, escapes, nesting and arbitrary white space -/
+
+/-- `[ 1E2 ,<TAB>"aA\n" , {"k" : [-0.5e-1, true], "" :{ }}<LF>]` -/
+def exText : String := "[ 1E2 ,\t\"a\\u0041\\n\" , {\"k\" : [-0.5e-1, true], \"\" :{ }}\n]"
+
+def exValue : JV :=
+  .arr [.num (.pos 100), .str ['a', 'A', '\n'],
+    .obj [(['k'], .arr [.num (.flt (.fin true 7205759403792794 (-57))), .bool true]), ([], .obj [])]]
+
+/-- `1E2`: an exponent spelling whose value is normalised to the integer `100` -/
+theorem ex_num1 : Ser (.num (.pos 100)) [49, 69, 50] :=
+  Ser.num (t := ⟨false, [49], none, some ⟨true, none, [50]⟩⟩) (by decide) (by decide +kernel)
+
+/-- `-0.5e-1` -/
+theorem ex_num2 : Ser (.num (.flt (.fin true 7205759403792794 (-57)))) [45, 48, 46, 53, 101, 45, 49] :=
+  Ser.num (t := ⟨true, [48], some [53], some ⟨false, some true, [49]⟩⟩) (by decide) (by decide +kernel)
+
+/-- `"aA\n"`: a raw character, a `\u` escape and a two-character escape -/
+theorem ex_str : Ser (.str ['a', 'A', '\n']) (34 :: (([97] ++ ([92, 117, 48, 48, 52, 49] ++ ([92, 110] ++ []))) ++ [34])) :=
+  Ser.str (StrBody.cons (StrItem.raw 'a' (by decide) (by decide) (by decide))
+    (StrBody.cons (StrItem.uni 48 48 52 49 0 0 4 1 rfl rfl rfl rfl (Or.inl (by decide)))
+      (StrBody.cons (StrItem.esc 110 '\n' rfl) StrBody.nil)))
+
+theorem ex_ser : Ser exValue (utf8 exText.toList) := by
+  have hk : Ser (.str ['k']) (34 :: (([107] ++ []) ++ [34])) :=
+    Ser.str (StrBody.cons (StrItem.raw 'k' (by decide) (by decide) (by decide)) StrBody.nil)
+  have he : Ser (.str []) (34 :: ([] ++ [34])) := Ser.str StrBody.nil
+  have hinner : Ser (.arr [.num (.flt (.fin true 7205759403792794 (-57))), .bool true]) _ :=
+    Ser.arr (w := []) (by decide)
+      (Elems.cons (w1 := []) (w2 := [32]) ex_num2 (by decide) (by decide)
+        (Elems.one (w := []) Ser.true (by decide)))
+  have hobj : Ser (.obj [(['k'], .arr [.num (.flt (.fin true 7205759403792794 (-57))), .bool true]),
+      ([], .obj [])]) _ :=
+    Ser.obj (w := []) (by decide)
+      (Members.cons (w1 := [32]) (w2 := [32]) (w3 := []) (w4 := [32]) hk (by decide) (by decide) hinner
+        (by decide) (by decide)
+        (Members.one (w1 := [32]) (w2 := []) (w3 := []) he (by decide) (by decide)
+          (Ser.objEmpty (w := [32]) (by decide)) (by decide)))
+      (by decide)
+  have h : Ser exValue _ :=
+    Ser.arr (w := [32]) (by decide)
+      (Elems.cons (w1 := [32]) (w2 := [9]) ex_num1 (by decide) (by decide)
+        (Elems.cons (w1 := [32]) (w2 := [32]) ex_str (by decide) (by decide)
+          (Elems.one (w := [10]) hobj (by decide))))
+  refine Eq.mp ?_ h
+  congr 1
+
+/-- the example text is read by the model as the example value -/
+example : ∃ r', (Reader.ofBytes (utf8 exText.toList)).nextJson = (.ok (some exValue), r') ∧ Ready r' [] :=
+  nextJson_ser ex_ser [] (delimited_of_delim (Delim.of_numDelim numDelim_nil)) [] (by decide) _
+    (by simpa using ready_ofBytes (utf8 exText.toList) none)
+
+/-- the items of the stream `<SP>1E2<SP>"aA\n"<LF>-0.5e-1` -/
+def exStream : List (JV × List Byte × List Byte) :=
+  [(.num (.pos 100), [49, 69, 50], [32]),
+   (.str ['a', 'A', '\n'], 34 :: (([97] ++ ([92, 117, 48, 48, 52, 49] ++ ([92, 110] ++ []))) ++ [34]), [10]),
+   (.num (.flt (.fin true 7205759403792794 (-57))), [45, 48, 46, 53, 101, 45, 49], [])]
+
+theorem exStream_ok : SepOK exStream :=
+  ⟨ex_num1, by decide, Or.inl (by decide), ex_str, by decide, Or.inl (by decide),
+    ex_num2, by decide, Or.inr (Or.inl rfl), True.intro⟩
+
+/-- the stream is read as its three values, then end of input -/
+example : ∃ r' r'', Reads (Reader.ofBytes (utf8 " 1E2 \"a\\u0041\\n\"\n-0.5e-1".toList) none)
+      [.num (.pos 100), .str ['a', 'A', '\n'], .num (.flt (.fin true 7205759403792794 (-57)))] r' ∧
+      r'.nextJson = (.ok none, r'') :=
+  stream_fidelity_ws [32] (by decide) exStream exStream_ok none
+
 end Jawk.Ser
+
+-- #print axioms Jawk.Ser.parse_ser
+-- #print axioms Jawk.Ser.stream_fidelity
+-- #print axioms Jawk.Ser.ex_ser
+-- #print axioms Jawk.Ser.print_parse_of_ser
